@@ -99,7 +99,18 @@ def rectMapper : Op := fun j => do
     pure (obj [("origin", ptToJson mesh.o), ("scales", ptToJson mesh.s), ("tie_margin", ratToJson margin),
                ("pix_indexes", intsToJson (Impl.rectangularPixIndexes truncRat mesh grid))])
 
-def ops : List (String × Op) := [("c12.entries", entries), ("c12.rect_mapper", rectMapper)]
+/-- radial projection with the rotation given by exact (cos φ, sin φ) supplied by the harness -/
+def radial : Op := fun j => do
+  let shape ← getNatPair (← field j "shape")
+  let s ← getPt (← field j "scales")
+  let o ← getPt (← field j "origin")
+  let c ← getPt (← field j "centre")
+  let cs ← getPt (← field j "cos_sin")
+  let rot : Rat × Rat → Rat × Rat := fun r => (r.1 * cs.1 - r.2 * cs.2, r.2 * cs.1 + r.1 * cs.2)
+  pure (gridToJson (Impl.radialProjected truncRat rot (Impl.extent shape s o) s c 0))
+
+def ops : List (String × Op) :=
+  [("c12.entries", entries), ("c12.rect_mapper", rectMapper), ("c12.radial", radial)]
 
 end Driver.C12
 
